@@ -1,6 +1,7 @@
 import GoSSE.Proofs.SessionServer
 import GoSSE.Proofs.GenEquivSession
 import GoSSE.Proofs.GenEquivUpgrade
+import GoSSE.Proofs.GenEquivWriters
 /-!
 # C16 — Session and Server keep the HTTP side of the protocol
 
@@ -355,5 +356,23 @@ theorem translated_Upgrade_is_model {σ : Type} (fuel : Nat) (w : GoRT.HttpRW) (
            | none => (none, some "ErrUpgradeUnsupported", r)
            | some rw => (some (GenEquiv.sessOf rw r (GoSSE.Model.upgradeLastEventID (GoRT.headerGet r.Header GenEquiv.lastEventIdKey))), none, r)) :=
   GenEquiv.Upgrade_eq fuel w r grw hf
+
+/-- **`getResponseWriter` as translated from session.go** — the function `translated_Upgrade_is_model` takes as a
+parameter. An `http.ResponseWriter` is a `GoRT.DynRW` there (an identity, the extra methods of its dynamic type, what
+`Unwrap()` returns); a model `Shape` is such a writer with the layer numbers as identities (`toDyn`). For **every** shape
+(any depth of `Unwrap()` wrappers, any combination of `Flush()` / `FlushError() error` on each layer) the translated loop
+ends without a fault and chooses what the model chooses (`getResponseWriter_spec`: the outermost layer that can flush at
+all, through `FlushError` if that layer has it, else through `Flush`; nil when no layer can) — named by the wrapper type
+the source builds and the layer it wraps. -/
+theorem translated_getResponseWriter_is_model (fuel : Nat) (sh : Shape) (hf : GenEquiv.depth sh < fuel) :
+    ∃ r, Gen.getResponseWriter fuel (GenEquiv.toDyn sh 0) = .ok r ∧
+      GenEquiv.resView r = GenEquiv.modelView (getResponseWriter sh 0) :=
+  GenEquiv.getResponseWriter_eq fuel sh hf
+
+/-- non-vacuity: a plain `Unwrap()`-only wrapper around a layer with both methods around anything: layer 1, `FlushError` -/
+example :
+    (Gen.getResponseWriter 5 (GenEquiv.toDyn (.wrapped .plain (.wrapped .both (.base .flusher))) 0)).map GenEquiv.resView =
+      .ok (some ("flusherErrorWrapper", 1)) := by
+  rfl
 
 end GoSSE.Props.C16
